@@ -113,7 +113,21 @@ def gen(rng, tier):
                 break
         batches.append(b)
         i += len(b)
+    # `pilot_activate` control messages are handled by a second thread of the
+    # manager: let some of them race with the state notifications
+    acts = dict()
+    if rng.random() < 0.5 and batches:
+        for _ in range(rng.randint(1, 2)):
+            acts.setdefault(str(rng.randrange(len(batches))), []).append(
+                rng.randrange(n))
+        kinds.add('activate_race')
+    late = None
+    if n > 1 and rng.random() < 0.3:
+        late = rng.randrange(n)
+        kinds.add('late_submit')
     return {'mode': 'a', 'n': n, 'batches': batches, 'kinds': sorted(kinds),
+            'acts': acts, 'late_submit': late,
+            'late_at': rng.choice([0.0, 0.0, 0.05, 0.2]),
             'raising_cb': False,
             'delay_max': rng.choice([0.0, 0.0, 0.05, 0.3])}
 
@@ -133,7 +147,7 @@ def run_a(seed, scenario, trace=None, tier='quick'):
         model = PilotModel()
         obs_m = dict()      # pmgr level callbacks: uid -> [state]
         obs_p = dict()      # pilot level callbacks
-        st    = {'pilots': [], 'samples': {}}
+        st    = {'pilots': [], 'samples': {}, 'raced': set()}
 
         def on_event(ev):
             if ev['kind'] == 'deliver' and ev.get('to') == 'pmgr' \
@@ -185,24 +199,58 @@ def run_a(seed, scenario, trace=None, tier='quick'):
             pmgr.check_uid = check_uid
             pds = [W.pilot_descr('/nonexistent/dst', uid='pilot.%04d' % i)
                    for i in range(sc['n'])]
-            pilots = pmgr.submit_pilots(pds)
-            st['pilots'] = pilots
+            late = sc.get('late_submit')
+            if late is not None and late < len(pds) and len(pds) > 1:
+                # one pilot is submitted by an application thread *while*
+                # notifications for its (known) uid already flow: the update
+                # done by submit_pilots races with the listener threads
+                lpd = pds.pop(late)
+                pilots = pmgr.submit_pilots(pds)
+                st['raced'].add(lpd.uid)
+
+                def app():
+                    sim.sleep(sc.get('late_at', 0.0))
+                    ps = pmgr.submit_pilots([lpd])
+                    ps[0].register_callback(pilot_cb)
+                    st['late_pilot'] = ps[0]
+                C.P.Thread(target=app, name='app.submit').start()
+                pilots.insert(late, None)
+            else:
+                pilots = pmgr.submit_pilots(pds)
+            st['pilots'] = [p for p in pilots if p is not None]
             for p in pilots:
-                p.register_callback(pilot_cb)
-            for batch in sc['batches']:
+                if p is not None:
+                    p.register_callback(pilot_cb)
+
+            class _U(object):
+                def __init__(self, uid):
+                    self.uid = uid
+            pilots = [p if p is not None else _U('pilot.%04d' % late)
+                      for p in pilots]
+            cpub = W.control_publisher(side)
+            for bi, batch in enumerate(sc['batches']):
+                for p in (sc.get('acts') or {}).get(str(bi), []):
+                    st['raced'].add(pilots[p].uid)
+                    sim.fault('activate_race')
+                    cpub.put(C.rpc.CONTROL_PUBSUB, {
+                        'cmd': 'pilot_activate', 'arg': {'pilot': {
+                            'uid': pilots[p].uid, 'type': 'pilot',
+                            'state': rps.PMGR_ACTIVE, 'resources': {}}}})
                 arg = list()
                 for p, state, kind in batch:
                     uid = 'pilot.unknown' if p == 'unknown' else pilots[p].uid
                     arg.append({'uid': uid, 'type': 'pilot', 'state': state})
                 if arg:
                     pub.put(C.rpc.STATE_PUBSUB, {'cmd': 'update', 'arg': arg})
-                for p in pilots:
+                for p in st['pilots']:
                     st['samples'].setdefault(p.uid, []).append(p.state)
                 if sim.ch.coin(0.3):
                     sim.sleep(sim.ch.uniform(0.0, 0.2))
             W.wait_until(sim, lambda: net.idle(queues=False), 30.0)
             sim.sleep(1.0)
-            for p in pilots:
+            if st.get('late_pilot'):
+                st['pilots'].append(st['late_pilot'])
+            for p in st['pilots']:
                 st['samples'].setdefault(p.uid, []).append(p.state)
 
         def distinct(lst):
@@ -222,6 +270,13 @@ def run_a(seed, scenario, trace=None, tier='quick'):
                 uid  = p.uid
                 want = model.seq.get(uid, [])
                 got  = distinct(obs_m.get(uid, []))
+                if uid in st['raced']:
+                    # two manager threads updated this pilot concurrently:
+                    # the order is not determined, only the invariants
+                    # (monotone, final is sticky; checked at each callback
+                    # and on the samples below) are judged
+                    want = got
+                    model.state[uid] = p.state
                 # LAUNCHING_PENDING is applied by submit_pilots itself
                 if got != want:
                     sim.violation(PROP, 'gap_not_filled', site,
